@@ -76,20 +76,50 @@ Fixpoint key_rank (prefixes : list string) (key : string) : option nat :=
   | p :: ps => if String.prefix p key then Some O else option_map S (key_rank ps key)
   end.
 
-(* sensors = {}; for key in telstate.keys(): if MUTABLE: name = shorten(key); if name: sensors[name] = key
-   (dict assignment: later keys overwrite earlier ones) *)
+(* BEFORE the fix of F6:  sensors = {}; for key in telstate.keys(): if MUTABLE: name = shorten(key);
+   if name: sensors[name] = key     (dict assignment: later keys overwrite earlier ones).  Kept for the record. *)
 Definition table := list (string * string).        (* sensor name -> full key *)
 Definition tbl_set (t : table) (n k : string) : table :=
   (n, k) :: filter (fun p => negb (String.eqb (fst p) n)) t.
 Definition tbl_get (t : table) (n : string) : option string :=
   option_map snd (find (fun p => String.eqb (fst p) n) t).
-Definition sensor_step (prefixes : list string) (t : table) (e : entry) : table :=
+Definition sensor_step_unranked (prefixes : list string) (t : table) (e : entry) : table :=
   if e_mut e then
     let n := shorten_key prefixes (e_key e) in
     if String.eqb n "" then t else tbl_set t n (e_key e)
   else t.
-Definition sensor_table (prefixes : list string) (st : store) : table :=
+Definition sensor_table_unranked (prefixes : list string) (st : store) : table :=
+  fold_left (sensor_step_unranked prefixes) st [].
+
+(* AFTER the fix: each entry remembers the rank (index of the owning prefix); a key only replaces an entry of
+   the same name when its namespace is at least as specific:
+     rank = prefixes.index(key[:len(key) - len(name)]);  if rank <= ranks.get(name, rank): ... *)
+Definition rtable := list (string * (nat * string)).        (* sensor name -> (rank, full key) *)
+Definition rtbl_set (t : rtable) (n : string) (v : nat * string) : rtable :=
+  (n, v) :: filter (fun p => negb (String.eqb (fst p) n)) t.
+Definition rtbl_get (t : rtable) (n : string) : option (nat * string) :=
+  option_map snd (find (fun p => String.eqb (fst p) n) t).
+Definition better (acc : option (nat * string)) (r : nat) (k : string) : option (nat * string) :=
+  match acc with
+  | Some (r0, k0) => if Nat.leb r r0 then Some (r, k) else Some (r0, k0)
+  | None => Some (r, k)
+  end.
+Definition sensor_step (prefixes : list string) (t : rtable) (e : entry) : rtable :=
+  if e_mut e then
+    let n := shorten_key prefixes (e_key e) in
+    if String.eqb n "" then t else
+    match key_rank prefixes (e_key e) with
+    | Some r => match better (rtbl_get t n) r (e_key e) with
+                | Some v => rtbl_set t n v
+                | None => t
+                end
+    | None => t
+    end
+  else t.
+Definition sensor_table (prefixes : list string) (st : store) : rtable :=
   fold_left (sensor_step prefixes) st [].
+Definition sensor_key (prefixes : list string) (st : store) (n : string) : option string :=
+  option_map snd (rtbl_get (sensor_table prefixes st) n).
 
 (* SPEC: the sensor [name] is read from the most specific namespace that defines it *)
 Fixpoint spec_sensor (st : store) (prefixes : list string) (name : string) : option string :=
@@ -178,7 +208,7 @@ Definition of_res_cinfo (r : res cinfo) : sx :=
 
 (* (1 store names cb stream)        -> () if chain cyclic | (model_prefixes spec_prefixes)
    (2 store prefixes key)           -> lookup
-   (3 store prefixes names)         -> list of (model sensor key, spec sensor key) per requested name
+   (3 store prefixes names)         -> list of (model sensor key, spec sensor key, pre-fix model key) per requested name
    (4 kw url file)                  -> resolved id
    (5 type)                         -> stream type accepted?
    (6 stream (id dumps rest) archived) -> (model spec)
@@ -195,8 +225,8 @@ Definition wire_18 (x : sx) : sx :=
   | L [I 2; st; prefixes; key] => of_optZ' (lookup (to_store st) (to_strings prefixes) (to_string key))
   | L [I 3; st; prefixes; names] =>
       let st := to_store st in let ps := to_strings prefixes in
-      let t := sensor_table ps st in
-      L (map (fun n => L [of_optstring (tbl_get t n); of_optstring (spec_sensor st ps n)]) (to_strings names))
+      L (map (fun n => L [of_optstring (sensor_key ps st n); of_optstring (spec_sensor st ps n);
+                          of_optstring (tbl_get (sensor_table_unranked ps st) n)]) (to_strings names))
   | L [I 4; kw; url; file] => of_optstring (resolve_id (to_optstring kw) (to_optstring url) (to_optstring file))
   | L [I 5; ty] => of_bool (check_stream_type (to_optstring ty))
   | L [I 6; stream; L [I i; I d; rest]; archived] =>
